@@ -850,6 +850,21 @@ fn universes(n: usize) -> Vec<Uni> {
 			vec![field("f", "[LA;", vec![tail_full(n, &nm("f"))], no_doc())],
 			vec![method("m", "(LA;)LA;", vec![tail_full(n, &nm("m"))], no_doc(), vec![ParamU { index: 2, rows: rows_all(n, &nm("p")), docs: no_doc() }])]),
 	], None));
+
+	// (k) members and classes called like the names other parts of the tool chain treat specially (constructors, static
+	//     initialisers, the placeholder names of the dummy filters): every subset of their names missing — a reorder
+	//     has no rule of its own for them: a missing name in the new first namespace is refused, nothing is filled in
+	let same_m = |s: &'static str| move |_: usize| s.to_owned();
+	out.push(Uni::new("special-names", n, vec![
+		class("A", false, vec![tail_full(n, &a)], no_doc(),
+			vec![field("f_1", "LA;", member_rows(&same_m("f_1")), no_doc())],
+			vec![
+				method("<init>", "(LA;)V", member_rows(&same_m("<init>")), no_doc(), vec![ParamU { index: 1, rows: vec![vec![None; n], (0..n).map(|_| Some("p_1".to_owned())).collect()], docs: no_doc() }]),
+				method("<clinit>", "()V", member_rows(&same_m("<clinit>")), no_doc(), vec![]),
+				method("m_1", "()LA;", vec![tail_full(n, &same_m("m_1")), vec![None; n - 1]], no_doc(), vec![]),
+			]),
+		class("C_1", true, vec![tail_full(n, &same_m("C_1")), vec![None; n - 1]], no_doc(), vec![], vec![]),
+	], None));
 	out
 }
 
@@ -911,7 +926,7 @@ fn quick_namespace_counts(label: &str) -> &'static [usize] {
 }
 
 /// labels of the universes, in the order of `universes`
-const UNIVERSE_LABELS: [&str; 13] = ["rows", "descriptors", "cross", "collisions", "comments", "edge", "names-jdk", "names-unicode", "names-all", "overloads", "shared", "wide", "ns-names"];
+const UNIVERSE_LABELS: [&str; 14] = ["rows", "descriptors", "cross", "collisions", "comments", "edge", "names-jdk", "names-unicode", "names-all", "overloads", "shared", "wide", "ns-names", "special-names"];
 
 // ---------------------------------------------------------------------------------------------
 // judging
